@@ -121,7 +121,7 @@ class Ctx:
                 e["n"] += 1
                 return False
         self.n_violations += 1
-        sig = h64([what, sig])
+        sig = h64(sig if sig is not None else what)
         self._sigs[sig] = self._sigs.get(sig, 0) + 1
         if self._sigs[sig] <= 3 and len(self.violations) < self.MAX_VIOL:
             self.violations.append(rec)
